@@ -103,6 +103,7 @@ class C13(Prop):
         out = []
 
         def pair(fn, fpy, fto, **info):
+            lenient = info.pop("lenient", False)
             rec = {"op": "pair", "fn": fn}
             rec.update(info)
             if "r" in info and "n" in scn:
@@ -114,6 +115,8 @@ class C13(Prop):
                 except Exception as e:
                     rec[side] = "exc"
                     rec[side + "_exc"] = _exc(e)
+            if lenient and "exc" in (rec["py"], rec["torch"]):
+                return           # inputs whose acceptance is not promised: compared only when both packages answer
             out.append(rec)
 
         def both(fn, f, **info):
@@ -142,6 +145,9 @@ class C13(Prop):
                     both("pauli_is_onsite", lambda B: bool(B.utils.pauli_is_onsite(B.pauli(gen).g, i0)), i0=i0)
                     both("pauli_diagonalize1", lambda B: [x for x in B.utils.pauli_diagonalize1(B.pauli(gen).g, i0)], i0=i0)
             both("mask", lambda B: B.utils.mask([0, n - 1], n))
+            # from-the-end labels (numpy / torch indexing semantics): compared when both packages accept them
+            both("mask", lambda B: B.utils.mask([-1], n), lenient=True, neg=1)
+            both("mask", lambda B: B.utils.mask([0, -1] if n > 1 else [-1], n), lenient=True, neg=2)
             both("aggregate", lambda B: B.utils.aggregate(B.cvec([1, 2, 0.5, -1, 1j]), B.ivec([0, 1, 0, 2, 1]).long() if B.name == "torch" else B.ivec([0, 1, 0, 2, 1]), 3))
             # class level
             both("Pauli.__matmul__", lambda B: B.pauli(a) @ B.pauli(b))
@@ -181,6 +187,8 @@ class C13(Prop):
             both("StabilizerState.get_prob", lambda B: B.state(rows, 0).get_prob(B.ivec([1] + [0] * (n - 1))))
             for reg in ([0], list(range(n))[: (n + 1) // 2], [n - 1]):
                 both("StabilizerState.entropy", lambda B: B.state(rows, r).entropy(reg), r=r, reg=reg)
+            for reg in ([-1], [0, -1][: n]):
+                both("StabilizerState.entropy", lambda B: B.state(rows, r).entropy(reg), r=r, reg=reg, lenient=True)
             both("stabilizer_entropy", lambda B: B.utils.stabilizer_entropy(B.state(rows, r).gs[r:n], B.bvec([j % 2 == 0 for j in range(n)])), r=r)
             both("stabilizer_project", lambda B: B.utils.stabilizer_project(B.state(rows, r).gs, B.plist(herm[:3]).gs, r), r=r)
             both("stabilizer_projection_trace", lambda B: B.utils.stabilizer_projection_trace(B.state(rows, 0).gs, B.state(rows, 0).ps[:n] if B.name == "torch" else B.state(rows, 0).ps,
